@@ -155,6 +155,17 @@ CHECKS['C13'] = dict(
     note='delivery of the notification by ComponentState.stageIn (rx) is assumed exactly-once; fake clock; performance book-keeping stubbed.',
     design='DESIGN.md section 2 C13')
 
+CHECKS['C02'] = dict(
+    technique='bounded symbolic execution (z3, own executor) with a cooperative scheduler: the order of logical-thread actions and every exit reason are solver variables; reference outcome from the documented rules',
+    text='The real Controller.run loop runs against a cooperative scheduler that owns task exits, post-mortem and finished notifications and '
+         'asynchronous kills; at the two blocking calls (event wait, stability wait under the lock) the solver picks which enabled action runs '
+         'next and the exit reason of each execution. For 7 (thorough 8) small DAGs every explored ordering must terminate, leave every '
+         'component in one final state, and match the rule-given states computed independently from the DAG and the exit reasons. '
+         'Path-budgeted per program (not exhaustive for the larger DAGs).',
+    note='real rx operators are applied synchronously on an immediate scheduler; preemption is modelled only at the two blocking calls; '
+         'Engine.run is a recorder; each notification is delivered exactly once.',
+    design='DESIGN.md section 2 C02')
+
 NOT_APPLICABLE = {
     'C07': 'round trip through the real file system, PyYAML (C) and Experiment construction: nothing on the path can be made symbolic; the technique would degenerate to example testing',
     'C15': 'quantifies over processes with different hash seeds / directory listing orders, which are not values inside one symbolic execution',
